@@ -79,7 +79,7 @@ def build_harness():
     lock = os.path.join(HARNESS, "Cargo.lock")
     if not os.path.exists(lock):
         shutil.copy(os.path.join(REPO, "Cargo.lock"), lock)
-    rc, out, dt = sh(["cargo", "build", "--offline"], cwd=HARNESS, timeout=3000)
+    rc, out, dt = sh(["cargo", "build", "--offline"], cwd=HARNESS, timeout=3000)  # CARGO_TARGET_DIR from ENV
     if rc != 0:
         raise Broken("harness:cargo-build", out[-6000:])
     return dt
@@ -200,15 +200,21 @@ def build_driver():
     if rc != 0:
         raise Broken("coq:extract/Extract.vo", out[-4000:])
     os.makedirs(DRIVER_DIR, exist_ok=True)
-    srcs = [os.path.join(COQ, "extract", f) for f in ("model.mli", "model.ml", "driver.ml")]
+    ex = os.path.join(COQ, "extract")
+    suites = sorted(f for f in os.listdir(ex) if f.startswith("drv_") and f.endswith(".ml") and f != "drv_common.ml")
+    order = ["model.mli", "model.ml", "drv_common.ml"] + suites + ["driver.ml"]
+    srcs = [os.path.join(ex, f) for f in order]
     h = hashlib.sha256(b"".join(open(f, "rb").read() for f in srcs)).hexdigest()
     stamp = os.path.join(DRIVER_DIR, "stamp")
     if os.path.exists(DRIVER) and os.path.exists(stamp) and open(stamp).read() == h:
         return
+    for f in os.listdir(DRIVER_DIR):
+        if f.endswith((".ml", ".mli", ".cmi", ".cmx", ".o")):
+            os.remove(os.path.join(DRIVER_DIR, f))
     for f in srcs:
         shutil.copy(f, DRIVER_DIR)
-    rc, out, dt = sh(["ocamlfind", "ocamlopt", "-package", "zarith", "-linkpkg", "-w", "-a", "-inline", "100",
-                      "model.mli", "model.ml", "driver.ml", "-o", "driver"], cwd=DRIVER_DIR, timeout=1200)
+    rc, out, dt = sh(["ocamlfind", "ocamlopt", "-package", "zarith", "-linkpkg", "-w", "-a", "-inline", "100"]
+                     + order + ["-o", "driver"], cwd=DRIVER_DIR, timeout=1200)
     if rc != 0:
         raise Broken("extract:ocaml-compile", out[-4000:])
     open(stamp, "w").write(h)
